@@ -10,6 +10,10 @@ Line protocol of the C03 driver (the executable set-consumer models and the cano
                               value is n) | `x` (an entry of another type); answer: the resulting set, ascending
   topo k:n1,n2 k: …         → `science.topological_sort` of the graph given in dict order with neighbour lists in THE GIVEN order
   canon t1 t2 … | t3 …      → first-seen numbering: ti = `v<n>` (value) | `u<n>` (identifier n); `|` separates outputs
+  seedact f g x             → what the seeding path does to the generators: f = `set` (set_random_seed(x, g)) | `reset`
+                              (env.reset(seed=x) with generate_seed_value = g) | `reset-truthy` (the same with `if seed:`);
+                              g = 0 | 1; x = `none` | an integer; answer: keep | seed <n> | entropy | raise
+  toklen n                  → length of `secrets.token_urlsafe(n)`
 -/
 
 def joinNats (l : List Nat) : String := " ".intercalate (l.map toString)
@@ -47,7 +51,28 @@ def splitBar (ws : List String) : List (List String) :=
     | [] => [[w]]
     | h :: t => (w :: h) :: t) [[]]
 
+def showAct : SeedAct → String
+  | .keep => "keep"
+  | .seedWith n => s!"seed {n}"
+  | .fromEntropy => "entropy"
+  | .raise => "raise"
+
+def parseSeedArg (w : String) : Option (Option Int) :=
+  if w = "none" then some none else (w.toInt?).map some
+
 def step (_ : Unit) : List String → Unit × String
+  | ["seedact", f, g, x] =>
+    match parseSeedArg x, (if g = "0" then some false else if g = "1" then some true else none) with
+    | some x, some g =>
+      if f = "set" then ((), showAct (codeShape.setRandomSeed x g))
+      else if f = "reset" then ((), showAct (codeShape.resetAct x g))
+      else if f = "reset-truthy" then ((), showAct (({ codeShape with resetGuard := [.truthy] } : SeedShape).resetAct x g))
+      else ((), "bad-op")
+    | _, _ => ((), "bad-op")
+  | ["toklen", n] =>
+    match n.toNat? with
+    | some n => ((), toString (tokenUrlsafeLen n))
+    | none => ((), "bad-op")
   | "sorted" :: ws =>
     match parseNats ws with
     | some l => ((), joinNats (sortedIter l))
